@@ -79,6 +79,72 @@ def nontrivial_spsc(case, out):
     return (out[-1] + out[-2] > 0) and any(op in (2, 3) for op in case[1::2]) and any(op in (0, 1) for op in case[1::2])
 
 
+def gen_cursor(rng):
+    k = rng.choice([0, 1, 1, 2, 2, 3, 4, 6])
+    size = 1 << k
+    n = rng.choice([2, 4, 8, 16, 40, 80])
+    case = [k]
+    for _ in range(n):
+        op = rng.choice([0, 1, 1, 2, 3, 3])
+        arg = rng.choice([0, 1, 1, 2, size - 1, size, size + 1, 2 * size, rng.randrange(0, 2 * size + 2), 70000])
+        case += [op, max(0, arg)]
+    return case
+
+
+def fixed_cursor(tier):
+    import itertools
+    out = []
+    alpha = [(0, 0), (0, 1), (0, 9), (1, 1), (1, 9), (2, 0), (2, 1), (2, 9), (3, 1), (3, 9)]
+    L = 4 if tier == "quick" else 5
+    for k in (0, 1, 2):
+        for n in range(1, L + 1):
+            for t in itertools.product(alpha, repeat=n):
+                c = [k]
+                for op, a in t:
+                    c += [op, a]
+                out.append(c)
+    return out
+
+
+def valid_cursor(c):
+    return len(c) >= 1 and len(c) % 2 == 1 and 0 <= c[0] <= 10 and all(0 <= o <= 3 for o in c[1::2]) and all(0 <= a <= 100000 for a in c[2::2])
+
+
+def gen_worker(rng):
+    n = rng.choice([1, 2, 3, 5, 8, 13, 30])
+    case = []
+    for i in range(n):
+        r = rng.random()
+        if r < 0.3:
+            op = 0
+        elif r < 0.7:
+            op = 1
+        elif r < 0.9:
+            op = 2
+        else:
+            op = 3 if (i > n * 0.5 or rng.random() < 0.3) else 1
+        case += [op, rng.choice([0, 1, 1, 2, 3, 8, rng.randrange(0, 20), 1000000])]
+    return case
+
+
+def fixed_worker(tier):
+    import itertools
+    out = []
+    alpha = [(0, 0), (0, 1), (0, 3), (1, 0), (2, 1), (2, 5), (3, 0)]
+    L = 5 if tier == "quick" else 7
+    for n in range(1, L + 1):
+        for t in itertools.product(alpha, repeat=n):
+            c = []
+            for op, a in t:
+                c += [op, a]
+            out.append(c)
+    return out
+
+
+def valid_worker(c):
+    return len(c) % 2 == 0 and all(0 <= o <= 3 for o in c[0::2]) and all(0 <= a <= 1000000 for a in c[1::2])
+
+
 def mt_check(ctx, stats):
     """supporting evidence only: real threads on this machine's (x86, strongly ordered) memory model"""
     from run_check import hexline, parse_hexline
@@ -109,13 +175,20 @@ registry.register("C17", {
     "components": [
         {"name": "spsc", "gen": gen_spsc, "fixed": fixed_spsc, "quick": 20000, "thorough": 400000,
          "valid": valid_spsc, "nontrivial": nontrivial_spsc, "histogram": hist_spsc},
+        {"name": "cursor", "gen": gen_cursor, "fixed": fixed_cursor, "quick": 20000, "thorough": 300000,
+         "valid": valid_cursor, "nontrivial": lambda case, out: any(o == 3 for o in case[1::2]) and sum(out) > 0},
+        {"name": "worker", "gen": gen_worker, "fixed": fixed_worker, "quick": 20000, "thorough": 300000,
+         "valid": valid_worker, "nontrivial": lambda case, out: len(out) >= 2 and out[-1] > 0},
     ],
     "extra_checks": [mt_check],
-    "rule": "cases: capacity + a schedule of public operations (try_slice/poll_slice + push k, try_slice/poll_slice + pop k, drop of either side); corpus + every schedule of length <= 4 (quick) / 6 (thorough) over a 10-letter alphabet for capacities 1,2,3 + wrap-around families for internal capacities 2..256 + seeded random schedules; a case is non-trivial when both sides operate and at least one wake-up is delivered",
+    "rule": "spsc cases: capacity + a schedule of public operations (try_slice/poll_slice + push k, try_slice/poll_slice + pop k, drop of either side); corpus + every schedule of length <= 4 (quick) / 6 (thorough) over a 10-letter alphabet for capacities 1,2,3 + wrap-around families for internal capacities 2..256 + seeded random schedules; a case is non-trivial when both sides operate and at least one wake-up is delivered; cursor: ring size 2^k + acquire/produce/consume operation sequences (all sequences of length <= 4/5 over a 10-letter alphabet for sizes 1,2,4 + random); worker: submit/poll_acquire/finish/drop sequences (all sequences of length <= 5/7 over a 7-letter alphabet + random)",
     "assumptions": [
         "PARTIAL: interleaving semantics = sequential consistency. Reorderings that the C11 model allows beyond interleavings for the chosen Ordering::* arguments are not exhibited by the model; the orderings are tied to the source only syntactically (C17_orderings)",
         "a ring slot write / read and each atomic access is one indivisible step; the item type is opaque (sequence numbers)",
         "each side is used by one thread at a time (Sender/Receiver are not Clone; &mut self API)",
+        "worker: one Sender handle (worker::Sender derives Clone but `senders` is not incremented by clone; clones are outside the model and are not generated)",
+        "the no-lost-wake-up invariants are decided, per program-counter case, by vm_compute over the finite arguments of the invariant (SpscEnum.fa_pc / fa_bool); schedules, capacities and programs are covered by the induction",
+        "judge_run (the executable judgement accepts every run of the model) is not proved for the three components; judge and model agree on every generated case of every run",
         "the real-thread component spsc_mt is supporting evidence only",
     ],
     "trusted_base": ["no axioms: Print Assumptions reports 'Closed under the global context' for every C17 theorem"],
